@@ -308,8 +308,16 @@ func (e *Engine) check(extra *Term, wantModel bool) (string, Model) {
 		if e.alt == nil {
 			e.alt = NewSolver("cvc5-int", 3000)
 		}
-		res, m = e.alt.Check(as, wantModel)
+		// (a model is always asked for: a sat answer of this back end is only taken
+		// when the engine's own evaluator confirms that the model satisfies every
+		// assertion - bit-vectors-as-integers next to floating point has produced
+		// models that do not; the candidates died in the native replay, but an
+		// unconfirmed candidate ends the check with exit 2)
+		res, m = e.alt.Check(as, true)
 		e.Stats.AltCalls++
+		if res == "sat" && !e.modelSatisfies(as, m) {
+			res = "unknown"
+		}
 		if res == "sat" || res == "unsat" {
 			e.Stats.AltDecided++
 		} else {
@@ -349,6 +357,20 @@ func (e *Engine) check(extra *Term, wantModel bool) (string, Model) {
 		e.Stats.SolverUnknown++
 	}
 	return res, m
+}
+
+// modelSatisfies reports whether no assertion evaluates to false under m
+// (an assertion the evaluator cannot reduce to a constant counts as satisfied).
+func (e *Engine) modelSatisfies(as []*Term, m Model) bool {
+	if m == nil {
+		return false
+	}
+	for _, a := range as {
+		if r := e.evalModel(a, m); r.IsConst() && !r.BoolVal() {
+			return false
+		}
+	}
+	return true
 }
 
 // evalModel evaluates t under model m (unassigned variables are 0).
